@@ -7,8 +7,6 @@ package sim
 
 import (
 	"fmt"
-	"hash/fnv"
-	"sort"
 	"strings"
 	"sync/atomic"
 	"testing/synctest"
@@ -62,7 +60,7 @@ func (sc *Sched) Run(done <-chan struct{}) {
 	raceDisable()
 	defer raceEnable()
 	var pending []*schedReq
-	h := fnv.New64a()
+	h := uint64(14695981039346656037)
 	for {
 		synctest.Wait()
 	drain:
@@ -80,16 +78,11 @@ func (sc *Sched) Run(done <-chan struct{}) {
 				pending = append(pending, r)
 				continue
 			case <-done:
-				sc.hash = h.Sum64()
+				sc.hash = h
 				return
 			}
 		}
-		sort.SliceStable(pending, func(i, j int) bool {
-			if pending[i].op != pending[j].op {
-				return pending[i].op < pending[j].op
-			}
-			return pending[i].key < pending[j].key
-		})
+		sortReqs(pending)
 		if len(pending) > sc.MaxPend {
 			sc.MaxPend = len(pending)
 		}
@@ -108,9 +101,9 @@ func (sc *Sched) Run(done <-chan struct{}) {
 		r := pending[i]
 		pending = append(pending[:i], pending[i+1:]...)
 		sc.Steps++
-		fmt.Fprintf(h, "%s %x|", r.op, r.key)
+		h = fnvAdd(fnvAdd(h, r.op), r.key)
 		if len(sc.Trace) < 400 {
-			sc.Trace = append(sc.Trace, r.op+" "+FmtKey(r.key))
+			sc.Trace = append(sc.Trace, r.op+" "+r.key)
 		}
 		if sc.Steps > sc.MaxSteps {
 			sc.Overflow = true
@@ -127,6 +120,32 @@ func (sc *Sched) Run(done <-chan struct{}) {
 }
 
 func (sc *Sched) Hash() uint64 { return sc.hash }
+
+//go:norace
+func fnvAdd(h uint64, s string) uint64 {
+	for i := 0; i < len(s); i++ {
+		h ^= uint64(s[i])
+		h *= 1099511628211
+	}
+	h ^= 0xff
+	h *= 1099511628211
+	return h
+}
+
+// sortReqs: insertion sort by (op,key); no closures, no package sort (see kit_kvmap.go).
+//
+//go:norace
+func sortReqs(p []*schedReq) {
+	for i := 1; i < len(p); i++ {
+		x := p[i]
+		j := i - 1
+		for j >= 0 && (p[j].op > x.op || (p[j].op == x.op && p[j].key > x.key)) {
+			p[j+1] = p[j]
+			j--
+		}
+		p[j+1] = x
+	}
+}
 
 // FmtKey renders "blk/<16 raw bytes>" as "blk/ab12cd34".
 func FmtKey(k string) string {
